@@ -37,6 +37,7 @@ JOBS = {
     ],
     "C02": [
         {"cmd": "c02-engine", "race": True, "batches": {"quick": 2, "thorough": 6}, "timeout": {"quick": 600, "thorough": 2400}, "fatal_is_violation": "crash-only"},
+        {"cmd": "c02-xe2e", "race": False, "batches": {"quick": 1, "thorough": 2}, "timeout": {"quick": 600, "thorough": 2400}},
         {"cmd": "c02-wrap", "race": True, "timeout": {"quick": 300, "thorough": 900}},
     ],
     "C03": [
